@@ -688,7 +688,8 @@ func c10Run(env *Env, pl *C10Plan, collect map[c10Pos][]byte, baseAlloc uint64) 
 		d1 = s.NewDevice("dev1", "dev1", cfg)
 		if pl.Kind == "mfgkey" {
 			mk := c10MfgKeys[pl.Ord%len(c10MfgKeys)]
-			d1.NoHmac384 = pl.Ord >= len(c10MfgKeys)
+			// only devices of the 256 class may leave the HMAC-SHA384 engine out
+			d1.NoHmac384 = pl.Ord >= len(c10MfgKeys) && (cfg.Fam() == P256 || cfg.Fam() == RSA2048)
 			mn := s.Nodes["mfg"]
 			mn.MfgKeyOverride = func(protocol.KeyType) (protocol.KeyType, int) { return mk.T, mk.Bits }
 			mn.Rebuild()
